@@ -22,7 +22,8 @@ def make_item(rng, ncalls):
     for i in range(2):
         objs["m%d" % i] = [list(rng.choice(P2)) for _ in range(rng.randint(2, 4))]
     objs["col"] = {"col": ["s0", "s1", "s2", "s3"], "elem": rng.choice(["list", "array", "numpy"])}
-    objs["colnp"] = {"col": ["s0", "s1", "s2", "s3"], "elem": "numpy"}
+    # members of the NumPy collection are sometimes non-contiguous views (a column of a matrix, x[::2])
+    objs["colnp"] = {"col": ["s0", "s1", "s2", "s3"], "elem": rng.choice(["numpy", "numpy", "numpy_strided"])}
     dicts = {"opts": {"window": rng.choice([2, 3]), "penalty": rng.choice([0, 1])}}
     calls = []
     for _ in range(ncalls):
@@ -87,8 +88,11 @@ def make_item(rng, ncalls):
         else:
             calls.append({"routine": "dtw.distance_matrix[dict]", "args": ["colnp"], "kinds": ["col_list"], "dict": "opts"})
     # repeat earlier calls with re-drawn container kinds (and engine): the same abstract call must give the same result
-    for _ in range(max(1, ncalls // 2)):
-        c0 = copy.deepcopy(rng.choice(calls))
+    layout = [c for c in calls if c["routine"] in ("dtw.warping_paths_fast", "dtw.warping_path_fast",
+                                                   "subsequence_alignment")]
+    for rep in range(max(1, ncalls // 2) + 2):
+        # two of the repeats are reserved for routines that hand a second series to C (layout-sensitive)
+        c0 = copy.deepcopy(rng.choice(layout if (rep < 2 and layout) else calls))
         rt = c0["routine"]
         if rt.startswith(("dtw.distance", "dtw.lb_keogh", "ed.distance")) and "matrix" not in rt and "[dict]" not in rt:
             fam = {"dtw.distance": ["dtw.distance", "dtw.distance[use_c]", "dtw.distance_fast"],
@@ -100,6 +104,12 @@ def make_item(rng, ncalls):
             c_engine = c0["routine"] not in ("dtw.distance", "dtw.lb_keogh", "ed.distance")
             c0["kinds"] = [rng.choice(K1C if c_engine else K1) for _ in c0["kinds"]]
             c0["nonumpy_ok"] = (not c_engine) and all(k in ("list", "tuple", "array") for k in c0["kinds"])
+        elif rt in ("dtw.warping_paths", "dtw.warping_paths_fast", "dtw.warping_path", "dtw.warping_path_fast", "dtw.warp"):
+            # same routine and engine, other memory layouts of the same numbers
+            c_engine = rt.endswith("_fast")
+            c0["kinds"] = [rng.choice(K1C if c_engine else ["list", "array", "numpy", "numpy_strided"]) for _ in c0["kinds"]]
+        elif rt == "subsequence_alignment":
+            c0["kinds"] = ["numpy", rng.choice(["numpy", "numpy_strided", "numpy_strided"])]
         calls.append(c0)
     return {"objs": objs, "dicts": dicts, "calls": calls}
 
